@@ -200,7 +200,7 @@ func TestCounterExhaustive(t *testing.T) {
 // TestCounterRandom samples long sequences for large windows.
 func TestCounterRandom(t *testing.T) {
 	name := t.Name()
-	hx.Check(t, 3000, 200000, 0, func(rt *rapid.T) {
+	hx.Check(t, 3000, 1000000, 0, func(rt *rapid.T) {
 		n := rapid.IntRange(1, 100).Draw(rt, "N")
 		min := rapid.IntRange(0, n+1).Draw(rt, "min")
 		// runs of events so that full windows of failures (and probes) are common
@@ -307,7 +307,7 @@ func drawPredrive(rt *rapid.T, n int, label string) []ev {
 
 func TestFilterThroughSwarm(t *testing.T) {
 	name := t.Name()
-	hx.Check(t, 1500, 60000, 0, func(rt *rapid.T) {
+	hx.Check(t, 1500, 300000, 0, func(rt *rapid.T) {
 		readOnly := rapid.IntRange(0, 3).Draw(rt, "mode") == 0
 		nU := rapid.IntRange(1, 4).Draw(rt, "udpN")
 		minU := rapid.IntRange(0, nU).Draw(rt, "udpMin")
